@@ -121,13 +121,71 @@ theorem runAcquire_spec (l : State) (b r : Nat) (fail : Bool) :
       rw [hstep] at this; exact this
     exact ⟨fun c p h => (finishAcquire_spec b r fail 12 l1).1 c p (hm c p h), (finishAcquire_spec b r fail 12 l1).2⟩
 
+theorem cancelAcquire_spec (b r : Nat) (k : Nat) (l : State) :
+    (∀ c p, owns l c p = true → owns (cancelAcquire b r k l).1 c p = true) ∧
+    ((cancelAcquire b r k l).2 = some .ok → owns (cancelAcquire b r k l).1 b r = true) := by
+  induction k generalizing l with
+  | zero =>
+    simp only [cancelAcquire]
+    exact ⟨fun c p h => (step_acq_owns_mono l b r c p h).2.2, by simp⟩
+  | succ k ih =>
+    simp only [cancelAcquire]
+    split
+    · simp
+    · split
+      · rename_i l' x hstep
+        refine ⟨fun c p h => ?_, fun hx => ?_⟩
+        · have := (step_acq_owns_mono l b r c p h).2.1
+          rw [hstep] at this; exact this
+        · simp only [Option.some.injEq] at hx
+          subst hx
+          obtain ⟨b', r', hop, ho⟩ := step_ok_owns .byRev l (.step b r) l' hstep
+          rcases hop with hop | hop <;> simp only [Op.step.injEq, reduceCtorEq] at hop
+          obtain ⟨rfl, rfl⟩ := hop
+          exact ho
+      · rename_i l' hstep
+        have hm : ∀ c p, owns l c p = true → owns l' c p = true := by
+          intro c p h
+          have := (step_acq_owns_mono l b r c p h).2.1
+          rw [hstep] at this; exact this
+        exact ⟨fun c p h => (ih l').1 c p (hm c p h), (ih l').2⟩
+
+theorem runAcquireCancel_spec (l : State) (b r k : Nat) :
+    (∀ c p, owns l c p = true → owns (runAcquireCancel l b r k).1 c p = true) ∧
+    ((runAcquireCancel l b r k).2 = some .ok → owns (runAcquireCancel l b r k).1 b r = true) := by
+  simp only [runAcquireCancel]
+  split
+  · rename_i l1 x hstep
+    refine ⟨fun c p h => ?_, fun hx => ?_⟩
+    · have := (step_acq_owns_mono l b r c p h).1
+      rw [hstep] at this; exact this
+    · simp only [Option.some.injEq] at hx
+      subst hx
+      obtain ⟨b', r', hop, ho⟩ := step_ok_owns .byRev l (.acquire b r) l1 hstep
+      rcases hop with hop | hop <;> simp only [Op.acquire.injEq, reduceCtorEq] at hop
+      obtain ⟨rfl, rfl⟩ := hop
+      exact ho
+  · rename_i l1 hstep
+    have hm : ∀ c p, owns l c p = true → owns l1 c p = true := by
+      intro c p h
+      have := (step_acq_owns_mono l b r c p h).1
+      rw [hstep] at this; exact this
+    exact ⟨fun c p h => (cancelAcquire_spec b r k l1).1 c p (hm c p h), (cancelAcquire_spec b r k l1).2⟩
+
+theorem acquireOne_spec (l : State) (b r : Nat) (fail : Bool) (ck : Option Nat) :
+    (∀ c p, owns l c p = true → owns (acquireOne l b r fail ck).1 c p = true) ∧
+    ((acquireOne l b r fail ck).2 = some .ok → owns (acquireOne l b r fail ck).1 b r = true) := by
+  cases ck with
+  | none => exact runAcquire_spec l b r fail
+  | some k => exact runAcquireCancel_spec l b r k
+
 theorem ofRes_nil {r : Option Res} (h : ofRes r = .nil) : r = some .ok := by
   cases r with
   | none => simp [ofRes] at h
   | some x => cases x <;> simp_all [ofRes]
 
-theorem acquireAll_mono (b : Nat) (fail : Bool) (l : State) (ps : List Nat) :
-    ∀ c p, owns l c p = true → owns (acquireAll b fail l ps).1 c p = true := by
+theorem acquireAll_mono (b : Nat) (fail : Bool) (cancel : Nat → Option Nat) (l : State) (ps : List Nat) :
+    ∀ c p, owns l c p = true → owns (acquireAll b fail cancel l ps).1 c p = true := by
   induction ps generalizing l with
   | nil => intro c p h; simpa [acquireAll] using h
   | cons q ps ih =>
@@ -135,6 +193,6 @@ theorem acquireAll_mono (b : Nat) (fail : Bool) (l : State) (ps : List Nat) :
     simp only [acquireAll]
     split
     · exact ih l c p h
-    · exact ih _ c p ((runAcquire_spec l b q fail).1 c p h)
+    · exact ih _ c p ((acquireOne_spec l b q fail (cancel q)).1 c p h)
 
 end KafVerif.ProduceGate
